@@ -111,7 +111,14 @@ def run_case(i, seed, tier):
         h = common.History(cfg, seed * 1000003 + i, profile, max_size=5000)
         if i % 5 == 0:
             h.apply({'op': 'duplicate_pvd'})
-        h.extend(nops)
+        if i % 7 == 4:
+            # edits continued on an object that opened the image mastered so far
+            h.extend(nops // 2)
+            counters['reopened_histories'] = 1 if h.reopen() else 0
+            h.gen.profile = 'churn'
+            h.extend(nops - nops // 2)
+        else:
+            h.extend(nops)
     ops = list(h.ops)
     h.sess.close()
     vio, dec = check(cfg, ops, seed * 1000003 + i, counters)
